@@ -448,6 +448,13 @@ def run(ctx):
                            timeout=1500, deadlock=False, overrides=ksw)
     ctx.tlc_expect_ok("K8sMultiline", "K8sMultiline_ideal.cfg", timeout=600, deadlock=False,
                       name="K8sMultiline/ideal (deviations off)")
+    # repaired defects kept as spec mutants: the old behaviour must be rejected by TLC (a real-code regression is
+    # caught by the replay, where the specification no longer excuses it)
+    for cfgname, inv, what in (("K8sMultiline_mutD12.cfg", "NoPanic", "D12 empty log panics (before 850331b)"),
+                               ("K8sMultiline_mutD17.cfg", "ResidualOK", "D17 skip flag survives time-out (before e8faead)")):
+        rmk = ctx.tlc("K8sMultiline", cfgname, timeout=300, deadlock=False, name="K8sMultiline/mutant " + what)
+        if rmk.violated != inv:
+            raise vlib.Infra("spec mutant %s was not rejected by %s: %s" % (cfgname, inv, rmk.violated))
     jcases = [c for c in rj.printed if "seq" in c and "pre" in c]
     kcases = [c for c in rk.printed if "seq" in c and "SP" in c]
     if len(jcases) < 10000 or len(kcases) < 5000:
